@@ -296,6 +296,10 @@ func c06ParamSets(tier string) (ps []c06Params, d int) {
 			{Servers: 1, Files: []int{1, 1}, CatLimit: 1, Glob: true, D: 2},
 		}, 1
 	}
+	for _, rd := range []int{0, 1600, 3100} {
+		ps = append(ps, c06Params{Servers: 1, Files: []int{2, 1}, CatLimit: 2, ReadDelayMs: rd, NoNL: true, D: 1}, c06Params{Servers: 2, Files: []int{3}, CatLimit: 1, ReadDelayMs: rd, NoNL: true, D: 1},
+			c06Params{Servers: 1, Files: []int{1, 2}, CatLimit: 1, Glob: true, ReadDelayMs: rd, NoNL: true, D: 1})
+	}
 	for _, srv := range []int{1, 2, 3} {
 		for _, files := range [][]int{{0}, {1}, {2}, {1, 1}, {2, 1}, {0, 2}, {1, 1, 1}} {
 			for _, lim := range []int{1, 2} {
